@@ -1,5 +1,5 @@
 (* C08 -- streaming_body (identity): the client gets exactly the written bytes, once, in order. *)
-From HS Require Import Lib.Base Model.Chunker Proofs.ChunkerP.
+From HS Require Import Lib.Base Model.Chunker Proofs.ChunkerP Proofs.ChunkerHist.
 
 (* For any sequence of write, write_all, flush and poll operations and the drop of the writer --
    any length, any chunk size >= 1, any interleaving of consumer polls -- the concatenation of the
@@ -41,9 +41,25 @@ Example c08_instance :
                 RPoll (Some (Some (Some [1;2;3;4]))); RPoll (Some (Some (Some [5;6]))); RPoll (Some None)].
 Proof. vm_compute. reflexivity. Qed.
 
+(* In EVERY history from a fresh body -- any operations in any order, aborts and body drops
+   included, any chunk size -- what the consumer has received is a prefix of what the writes
+   accepted: nothing is ever reordered, duplicated or invented, whatever goes wrong. *)
+Theorem c08_delivered_prefix_of_accepted : forall cap ops, 0 < cap ->
+  let '(sf, rs) := crun (cinit cap) ops in exists rest, acc_total ops rs = del_total rs ++ rest.
+Proof. exact delivered_prefix_of_accepted. Qed.
+
+(* ... and a clean end (the first terminal event) is reported only once everything accepted has
+   been delivered. *)
+Theorem c08_clean_end_complete : forall cap ops w, 0 < cap ->
+  let '(s, rs) := crun (cinit cap) ops in
+  IsOk s -> snd (fst (cstep s (OPoll w))) = RPoll (Some None) -> acc_total ops rs = del_total rs.
+Proof. exact clean_end_complete. Qed.
+
 Print Assumptions c08_accounting.
 Print Assumptions c08_initial_state_good.
 Print Assumptions c08_delivery.
 Print Assumptions c08_flush.
 Print Assumptions c08_progress.
 Print Assumptions c08_frames_nonempty.
+Print Assumptions c08_delivered_prefix_of_accepted.
+Print Assumptions c08_clean_end_complete.
